@@ -149,8 +149,8 @@ def mon_C10(case, obs):
     if case.get('runner') in ('serial', 'fork', 'spawn'):
         # a task that raises in run() is reported as failed with that very exception (not as a worker that died, say)
         for t, name in sorted((obs.get('excs') or {}).items()):
-            if case['behs'][int(t)] == 'raise' and name != 'ValueError' and case['types'][int(t)] != 13:      # (type 13 fails in filter_context)
-                return ('wrong-failure-cause', f"task {t} raises ValueError in run(); under the {case['runner']} backend it was reported as failed with {name}")
+            if case['behs'][int(t)] == 'raise' and name != ('SystemExit' if int(t) % 4 == 3 else 'ValueError') and case['types'][int(t)] != 13:      # (type 13 fails in filter_context)
+                return ('wrong-failure-cause', f"task {t} raises {'SystemExit' if int(t) % 4 == 3 else 'ValueError'} in run(); under the {case['runner']} backend it was reported as failed with {name}")
     if case['cont']:
         want = [[t, ref[t]] for t in first_occ([t for t, _ in case['req']]) if ref[t] is not None]
         if obs['outcome'] != 'returned':
@@ -171,7 +171,7 @@ def mon_C10(case, obs):
         if fails:
             if obs['outcome'] != 'laberror':
                 return ('failure-not-raised', f"continue_on_failure=False, a task failed, run_tasks ended with {obs['outcome']}")
-            if obs.get('cause') not in ('ValueError', 'TaskError', 'TaskDiedError', 'PicklingError', 'LookupError'):
+            if obs.get('cause') not in ('ValueError', 'SystemExit', 'TaskError', 'TaskDiedError', 'PicklingError', 'LookupError'):
                 return ('laberror-without-cause', f"LabError cause is {obs.get('cause')}")
             later = [e for e in obs['events'][fails[0]:] if e[0] == 'submit']
             if later:
